@@ -35,6 +35,8 @@ type Check struct {
 	// CrossConfig: digests recorded by children for equal case ids must agree.
 	Assumptions []string
 	Technique   string
+	// Exhaustive: per tier, the finite space the run enumerates completely (empty = sampled only).
+	Exhaustive map[string]string
 }
 
 // All is the registry.
